@@ -58,7 +58,10 @@ def _uninstall_clock():
     zc.datetime = datetime
 
 
-URLS = ["http://h/a.wsdl", "https://h/b.xsd?x=1"]
+URLS = ["http://h/a.wsdl", "https://h/b.xsd?x=1",
+        # urls that differ only in value-less query selectors or in the order of their parameters are different urls
+        "http://h/a.wsdl?wsdl", "http://h/a.wsdl?singleWsdl", "http://h/s?b=2&a=1", "http://h/s?a=1&b=2"]
+DAY = 86400 * 1000000
 
 
 class Real:
@@ -204,9 +207,9 @@ def random_history(rng, n):
         timeout = rng.choice(timeouts)
         k = rng.random()
         b = rng.choice(vers)
-        u = rng.randrange(2)
+        u = rng.randrange(2) if rng.random() < 0.5 else rng.randrange(len(URLS))
         if rng.random() < 0.6:
-            now += rng.choice([0, 1, US - 1, US, US + 1, 2 * US, 2 * US - 1, 999999, 3600 * US])
+            now += rng.choice([0, 1, US - 1, US, US + 1, 2 * US, 2 * US - 1, 999999, 3600 * US, DAY, DAY + 1, DAY + US, 2 * DAY - 1, 7 * DAY + 2 * US])
         if k < 0.4:
             c = [rng.randrange(256) for _ in range(rng.choice([0, 1, 2, 3, 4, 5, 30]))]
             ops.append(["add", b, u, c, now])
@@ -377,7 +380,7 @@ def run(ctx):
     res.programs = res.evaluations
     res.rule = ("all histories over add(2 urls x 2 contents) and clock advances {1us, 1s, 2s-1us} up to the stated length "
                 "(timeout 2s, so the expiry instant and its neighbours are hit exactly), both urls looked up after every "
-                "step, for both backends; random histories with two on-disk versions, random bytes, timeouts "
+                "step, for both backends; random histories with two on-disk versions, random bytes, six urls (two pairs differing only in value-less query selectors / parameter order), clock advances up to several days, timeouts "
                 "None/0/1s/2s/3600s and Transport.load with a counting fetcher; one multi-thread stress on a shared file; a statement-level "
                 "interleaving probe (a second cache object looks both urls up at the start of every SQL statement of an overwrite). "
                 "distinct = distinct op lists; non-trivial = stores and lookups both present")
